@@ -62,10 +62,13 @@ def scenario(sim):
             sp.s2c_out = alphabet(sim, n2, 0, 128)
             sp.s2c_err = alphabet(sim, n3, 128, 256)
             sp.combine_at = sim.choose(n3 + 1) if n3 else 0
+            if sim.choose(4) == 0 and n2 + n3 < 1500000:
+                sp.combine_at = -1        # switch combining on only after the peer's EOF has been processed
+                sp.exit_status = None
         else:
             sp.s2c_out = sim.payload.randbytes(n2)
             sp.s2c_err = sim.payload.randbytes(n3)
-        if sim.choose(2):
+        if sim.choose(2) and sp.combine_at != -1:
             sp.exit_status = (0, 1, 127, 255, 2 ** 31 - 1)[sim.choose(5)]
         w.open(sp)
         desc["channels"].append({"c2s": n1, "s2c_out": n2, "s2c_err": n3, "combine_at": sp.combine_at, "exit": sp.exit_status})
